@@ -35,7 +35,7 @@ func operandText(s string) string {
 
 func runLitOps(t *testing.T) {
 	H.Rule("litops", "rapid: `A op B` (26 binary operators incl. loose/strict equality, arithmetic, shifts, relational, logical, in/instanceof) and `op A` (9 unary forms) with A, B drawn from a grid of 63 boundary literals (numbers, numeric-looking and other strings, null/undefined/booleans, bigints, [] {} regexp, templates), placed in 6 contexts (value, condition of ?: and if, operand of a further operator, template hole) × charset × minify-whitespace × line-limit, WITHOUT syntax minification: esbuild folds several of these anyway. Oracle: V8 value (or thrown error) of the input statement vs the output statement. Non-trivial = the output no longer contains the operator applied to both literals (something was folded).")
-	H.SetupRapid("litops", H.N(16000, 800000)/8)
+	H.SetupRapid("litops", H.N(16000, 240000)/8)
 	ctxs := []string{"x = @;", "x = (@) ? 1 : 2;", "if (@) x = 1; else x = 2;", "x = [(@), typeof (@)];", "x = `${@}`;", "x = !(@);"}
 	rapid.Check(t, func(rt *rapid.T) {
 		var cases []LitCase
